@@ -104,17 +104,25 @@ def unbind (s : St) (sid : Nat) (e : Option Nat) : St × UnbindOut :=
     | none => (s, .noSuchBind)
     | some e =>
       if so.binds.contains e then
-        ({ s with socks := insertN s.socks sid { so with binds := so.binds.filter (· != e) } }, .ok)
+        -- the listener stops — and with it the handshakes it had started that are still running
+        -- (since fix D14 a handshake task also waits for its listener's stop signal); nothing is
+        -- reported for them: the task is simply dropped
+        let raws := s.raws.map (fun x =>
+          if x.2.sock == sid && x.2.ep == e && x.2.hs == .running
+          then (x.1, { x.2 with hs := .failed, closedByLib := true }) else x)
+        ({ s with socks := insertN s.socks sid { so with binds := so.binds.filter (· != e) }, raws := raws }, .ok)
       else (s, .noSuchBind)
 
-/-- `close()` / `drop`: every listener of the socket stops; every REGISTERED connection is
-closed; connections still in their handshake task are not (finding D14) -/
+/-- `close()` / `drop`: every listener of the socket stops; every registered connection is
+closed, and so is every connection still in its handshake (fix D14) -/
 def closeSock (s : St) (sid : Nat) : St :=
   match lookupN s.socks sid with
   | none => s
   | some so =>
     let raws := s.raws.map (fun e =>
-      if e.2.sock == sid && e.2.hs == .registered then (e.1, { e.2 with closedByLib := true }) else e)
+      if e.2.sock == sid && e.2.hs == .registered then (e.1, { e.2 with closedByLib := true })
+      else if e.2.sock == sid && e.2.hs == .running then (e.1, { e.2 with hs := .failed, closedByLib := true })
+      else e)
     { s with socks := insertN s.socks sid { so with binds := [], alive := false }, raws := raws }
 
 /-! ### one connection's handshake task -/
@@ -183,5 +191,20 @@ def rawConnect (s : St) (c : Nat) (e : Nat) : St × Bool :=
   match ownerOf s e with
   | none => (s, false)
   | some sid => ({ s with raws := insertN s.raws c { ep := e, sock := sid } }, true)
+
+/-- `connect()`: the socket connects OUT to a listener of the peer (raw client `c` is that
+listener's end of the connection).  The same handshake decides — what the peer sends, judged
+against the local socket type; success registers the peer and reports `Connected`, failure is
+returned to the caller and the connection is closed.  (The id `1000000 + c` stands for the peer's
+own endpoint: no socket of the library ever has it in its bind set.) -/
+def connectOut (s : St) (sid c : Nat) (peerBytes : Bytes) : St × Bool :=
+  match lookupN s.socks sid with
+  | none => (s, false)
+  | some so =>
+    let st := judge so.typ peerBytes
+    let rc : RawC := { ep := 1000000 + c, sock := sid, sent := peerBytes, hs := st,
+                       closedByLib := st != .registered }
+    let s := { s with raws := insertN s.raws c rc }
+    if st == .registered then (emit s sid "Connected", true) else (s, false)
 
 end Zmq.Net
